@@ -493,6 +493,17 @@ class Unit:
         if os.path.exists(pre):
             pretxt += open(pre).read()
         if pretxt:
+            # Verus allows one module-level `broadcast use` per module: merge those of all prelude pieces
+            names = []
+            def _bu(mo):
+                for n in mo.group(1).replace("{", "").replace("}", "").split(","):
+                    n = n.strip()
+                    if n and n not in names:
+                        names.append(n)
+                return ""
+            pretxt = re.sub(r"(?ms)^broadcast use\s+([^;]*);[ \t]*\n", _bu, pretxt)
+            if names:
+                pretxt += "\nbroadcast use {%s};\n" % ", ".join(names)
             lo, hi = g.emit("// ---- prelude (shims, spec functions, assumed contracts) ----\n" + pretxt)
             g.region(lo, hi, kind="prelude")
         g.emit("// ---- extracted from /repo (mechanical; see unit.toml) ----")
